@@ -233,5 +233,17 @@ def run(rep: common.Reporter, tier: str, check: set[str]) -> dict:
                     rep.machinery_error(msg)
                 elif clause in check or clause in ('crash', 'unobservable'):
                     rep.violation(fp, {'what': msg, 'host': hname, 'behaviour': beh})
+    # sensitivity: with the in-place branch of the real setter made to swallow the new value, the replay must object
+    from autobean_refactor.models import meta_value_internal as mvi
+    orig = mvi.update_value
+    mvi.update_value = lambda raw, value: orig(raw, value) or (raw is not None and value is None)     # None no longer clears
+    try:
+        beh = [{'route': 'init', 'k': 'str', 'v': 1, 'asmodel': False}, {'route': 'attr', 'k': 'none', 'v': 0, 'asmodel': False}]
+        caught = bool(replay(beh, HOSTS[0], {'readback', 'reparse', 'frame', 'tree'})[0])
+    finally:
+        mvi.update_value = orig
+    if not caught or replay(beh, HOSTS[0], {'readback', 'reparse', 'frame', 'tree'})[0]:
+        rep.machinery_error('sensitivity: MetaValue replay did not tell the mutated setter from the real one')
     return {'states': r.distinct, 'transitions': r.generated, 'behaviours': len(behs) * len(HOSTS), 'steps': steps,
+            'sensitivity_mutated_setter_caught': caught,
             'hosts': [h[0] for h in HOSTS], 'sample': json.loads(behs[len(behs) // 2]) if behs else None}
